@@ -217,6 +217,49 @@ def structure_suite(res, rng, ncls, per=120):
                                detail="model and generator differ on %d schemas; first: %s of\n%s" % (len(bad), lines[bad[0]][:600], srcs[bad[0]])))
 
 
+
+def final_probe(res):
+    """write-once fields: `x: Final[T]` without default takes input (and is required), with a default it never does; the input
+    schema must list exactly the first kind, as the parser behaves"""
+    from utype.specs.json_schema.generator import JsonSchemaGenerator
+    warnings.simplefilter("ignore")
+    bad, n = [], 0
+    for base in ("Schema", "DataClass"):
+        for opts in ("", "addition=False", "mode='w'", "addition=False, mode='a'"):
+            name = dyn.fresh("Fin")
+            src = ("class %s(%s):\n%s    id: Final[int]\n    opt: Final[int] = 3\n    plain: int = 0\n"
+                   % (name, base, "    __options__ = Options(%s)\n" % opts if opts else ""))
+            try:
+                dyn.declare(src)
+            except Exception as e:
+                bad.append("declaration refused (%s)\n%s" % (e, src)); continue
+            K = dyn.get(name)
+            sch = JsonSchemaGenerator(K, output=False)()
+            props, req = list(sch.get("properties", {})), list(sch.get("required", []))
+            n += 1
+            try:
+                inst = K(id="42", opt=9)
+                got = (getattr(inst, "id", None) if base == "DataClass" else inst.get("id"), getattr(inst, "opt", None) if base == "DataClass" else inst.get("opt"))
+            except Exception as e:
+                got = "raised %s" % type(e).__name__
+            try:
+                K()
+                absent_ok = True
+            except Exception:
+                absent_ok = False
+            takes_id = got != "raised" and isinstance(got, tuple) and got[0] == 42
+            takes_opt = isinstance(got, tuple) and got[1] == 9
+            if takes_id != ("id" in props) or takes_opt != ("opt" in props):
+                bad.append("the parser %s `id` and %s `opt` (got %r), the input schema lists %r\n%s"
+                           % ("takes" if takes_id else "ignores", "takes" if takes_opt else "ignores", got, props, src))
+            elif (not absent_ok) != ("id" in req):
+                bad.append("leaving out `id` is %s by the parser, the input schema requires %r\n%s" % ("accepted" if absent_ok else "rejected", req, src))
+    res.add_suite("final-fields-probe", n, n, [dict(cls="class K(Schema): id: Final[int]; opt: Final[int] = 3", expect="properties list id, not opt; required lists id")],
+                  "write-once fields with and without default, 2 base classes x 4 option sets: listed input properties and `required` against what "
+                  "the parser takes and demands", dict(failures=len(bad)))
+    for m in bad[:2]:
+        res.violations.append(dict(case=repr(dict(kind="final-fields-probe")), observed=m, what="input schema and parser disagree on a Final field: " + m.split("\n")[0]))
+
 # ---- the input schema against the parser: probes ----
 def probe_oracle(i_seed):
     """required / properties / additionalProperties of the input schema against the parser on the same class"""
@@ -291,6 +334,7 @@ def main(tier, seed):
     core.prove(res, PID)
     rng = random.Random(seed * 157 + 13)
     structure_suite(res, rng, 150 if tier == "quick" else 2000)
+    final_probe(res)
     jobs, meta = gen_jobs(rng, 140 if tier == "quick" else 2000, 120 if tier == "quick" else 1500)
     try:
         results = validate_batch(jobs)
